@@ -1,4 +1,146 @@
-import Heathcliff.Model.NTT
+import Heathcliff.Proofs.C09D
+import Heathcliff.Proofs.C09E
+import Heathcliff.Proofs.C09F
+
+/- Property theorems only (statements verbatim; proofs are the helper lemmas of Heathcliff/Proofs). -/
 namespace HC.C09
-theorem brev_zero (i : Nat) : brev 0 i = 0 := rfl
+open HC
+variable {m : Modulus}
+open Finset
+variable {R : Type} [CommRing R]
+
+theorem brev_lt (k i : Nat) : brev k i < 2^k := HC.brev_lt k i
+
+theorem brev_brev {k i : Nat} (h : i < 2^k) : brev k (brev k i) = i := HC.brev_brev h
+
+theorem brev_two_mul (k m : Nat) : brev (k+1) (2*m) = brev k m := HC.brev_two_mul k m
+
+theorem brev_two_mul_add_one (k m : Nat) : brev (k+1) (2*m+1) = 2^k + brev k m := HC.brev_two_mul_add_one k m
+
+/-- a value that fits in k bits, reversed in a (k+1)-bit window, is doubled -/
+theorem brev_succ_of_lt {k m : Nat} (h : m < 2^k) : brev (k+1) m = 2 * brev k m := HC.brev_succ_of_lt h
+
+/-- index identity linking the scrambled inverse table to the bit-reversed forward table -/
+theorem brev_pred {k l i : Nat} (hl : l < k) (hi : i < 2^l) :
+    brev k (brev k (2^l + i) - 1) = 2^k - 2^(l+1) + i := HC.brev_pred hl hi
+
+/-- the network only looks at indices below 2^k -/
+theorem runFwd_congr (k : Nat) (roots : Nat → R) (a a' : Nat → R) (h : ∀ p, p < 2^k → a p = a' p) :
+    ∀ l, l ≤ k → ∀ p, p < 2^k → runFwd (exactArith R) k roots a l p = runFwd (exactArith R) k roots a' l p := HC.runFwd_congr k roots a a' h
+
+theorem runInv_congr (k : Nat) (roots : Nat → R) (a a' : Nat → R) (h : ∀ p, p < 2^k → a p = a' p) :
+    ∀ l, l ≤ k → ∀ p, p < 2^k → runInv (exactArith R) k roots a l p = runInv (exactArith R) k roots a' l p := HC.runInv_congr k roots a a' h
+
+/-- FORWARD: output i is the evaluation of the input polynomial at psi^(2·brev k i + 1) -/
+theorem fwd_eval (k : Nat) (ψ : R) (hψ : ψ^(2^k) = -1) (roots : Nat → R)
+    (hroots : ∀ j, 0 < j → j < 2^k → roots j = ψ^(brev k j)) (a : Nat → R) :
+    ∀ i, i < 2^k → runFwd (exactArith R) k roots a k i = ∑ j ∈ range (2^k), a j * (ψ^(2 * brev k i + 1))^j := HC.fwd_eval k ψ hψ roots hroots a
+
+/-- INVERSE ∘ FORWARD = 2^k · id (the remaining factor is cancelled by the scalar n^{-1}) -/
+theorem inv_fwd (k : Nat) (ψ ψi : R) (hinv : ψ * ψi = 1) (roots iroots : Nat → R)
+    (hroots : ∀ j, 0 < j → j < 2^k → roots j = ψ^(brev k j))
+    (hiroots : ∀ p, 0 < p → p < 2^k → iroots p = ψi^(brev k (p-1) + 1)) (a : Nat → R) :
+    ∀ p, p < 2^k → runInv (exactArith R) k iroots (runFwd (exactArith R) k roots a k) k p = 2^k * a p := HC.inv_fwd k ψ ψi hinv roots iroots hroots hiroots a
+
+/-- FORWARD ∘ INVERSE = 2^k · id -/
+theorem fwd_inv (k : Nat) (ψ ψi : R) (hinv : ψ * ψi = 1) (roots iroots : Nat → R)
+    (hroots : ∀ j, 0 < j → j < 2^k → roots j = ψ^(brev k j))
+    (hiroots : ∀ p, 0 < p → p < 2^k → iroots p = ψi^(brev k (p-1) + 1)) (a : Nat → R) :
+    ∀ p, p < 2^k → runFwd (exactArith R) k roots (runInv (exactArith R) k iroots a k) k p = 2^k * a p := HC.fwd_inv k ψ ψi hinv roots iroots hroots hiroots a
+
+/-- evaluation at a root of X^n + 1 is multiplicative for the negacyclic product -/
+theorem eval_negMul (n : Nat) (hn : 0 < n) (x : R) (hx : x^n = -1) (a b : Nat → R) :
+    ∑ c ∈ range n, negMulR n a b c * x^c = (∑ i ∈ range n, a i * x^i) * (∑ j ∈ range n, b j * x^j) := HC.eval_negMul n hn x hx a b
+
+/-- CONVOLUTION: inverse transform of the pointwise product of transforms = 2^k · negacyclic product -/
+theorem ntt_convolution (k : Nat) (ψ ψi : R) (hψ : ψ^(2^k) = -1) (hinv : ψ * ψi = 1) (roots iroots : Nat → R)
+    (hroots : ∀ j, 0 < j → j < 2^k → roots j = ψ^(brev k j))
+    (hiroots : ∀ p, 0 < p → p < 2^k → iroots p = ψi^(brev k (p-1) + 1)) (a b : Nat → R) :
+    ∀ c, c < 2^k →
+      runInv (exactArith R) k iroots
+        (fun i => runFwd (exactArith R) k roots a k i * runFwd (exactArith R) k roots b k i) k c
+      = 2^k * negMulR (2^k) a b c := HC.ntt_convolution k ψ ψi hψ hinv roots iroots hroots hiroots a b
+
+/-- lazy multiplication by a well-formed operand: < 2q and congruent, for every x < 2^64 -/
+theorem mulRoot_lazy (h : m.WF) {o : MulOperand} (ho : WFOp m o) {x : Nat} (hx : x < 2^64) :
+    (modArithLazy m).mulRoot x o < 2 * m.value ∧
+    (((modArithLazy m).mulRoot x o : Nat) : ZMod m.value) = (x : ZMod m.value) * (o.operand : ZMod m.value) := HC.mulRoot_lazy h ho hx
+
+/-- FORWARD lazy network: inputs < 4q ⇒ every intermediate and output value < 4q (< 2^63: no overflow in `a + b`,
+    `a + 2q - b`), and it computes the exact network modulo q -/
+theorem fwd_lazy_sim (h : m.WF) (k : Nat) (roots : Nat → MulOperand)
+    (hr : ∀ j, 0 < j → j < 2^k → WFOp m (roots j)) (a : Nat → Nat) (ha : ∀ p, p < 2^k → a p < 4 * m.value) :
+    ∀ l, l ≤ k → ∀ p, p < 2^k →
+      runFwd (modArithLazy m) k roots a l p < 4 * m.value ∧
+      ((runFwd (modArithLazy m) k roots a l p : Nat) : ZMod m.value)
+        = runFwd (exactArith (ZMod m.value)) k (fun j => ((roots j).operand : ZMod m.value))
+            (fun p => (a p : ZMod m.value)) l p := HC.fwd_lazy_sim h k roots hr a ha
+
+/-- INVERSE lazy network: inputs < 2q ⇒ every intermediate and output value < 2q, exact modulo q -/
+theorem inv_lazy_sim (h : m.WF) (k : Nat) (roots : Nat → MulOperand)
+    (hr : ∀ j, 0 < j → j < 2^k → WFOp m (roots j)) (a : Nat → Nat) (ha : ∀ p, p < 2^k → a p < 2 * m.value) :
+    ∀ l, l ≤ k → ∀ p, p < 2^k →
+      runInv (modArithLazy m) k roots a l p < 2 * m.value ∧
+      ((runInv (modArithLazy m) k roots a l p : Nat) : ZMod m.value)
+        = runInv (exactArith (ZMod m.value)) k (fun j => ((roots j).operand : ZMod m.value))
+            (fun p => (a p : ZMod m.value)) l p := HC.inv_lazy_sim h k roots hr a ha
+
+/-- the array-cached executable network is the function-level network -/
+theorem runFwdA_eq {α ρ : Type} [Inhabited α] (A : Arith α ρ) (k : Nat) (roots : Nat → ρ) (a : Array α)
+    (hs : a.size = 2^k) : ∀ l, l ≤ k →
+      (runFwdA A k roots a l).size = 2^k ∧
+      ∀ p, p < 2^k → arrFn (runFwdA A k roots a l) p = runFwd A k roots (arrFn a) l p := HC.runFwdA_eq A k roots a hs
+
+theorem runInvA_eq {α ρ : Type} [Inhabited α] (A : Arith α ρ) (k : Nat) (roots : Nat → ρ) (a : Array α)
+    (hs : a.size = 2^k) : ∀ l, l ≤ k →
+      (runInvA A k roots a l).size = 2^k ∧
+      ∀ p, p < 2^k → arrFn (runInvA A k roots a l) p = runInv A k roots (arrFn a) l p := HC.runInvA_eq A k roots a hs
+
+/-- final reductions of the non-lazy wrappers -/
+theorem reduce4 {q x : Nat} (hq : 0 < q) (hx : x < 4 * q) :
+    (let y := if x ≥ 2*q then x - 2*q else x; if y ≥ q then y - q else y) = x % q := HC.reduce4 hq hx
+
+theorem reduce2 {q x : Nat} (hq : 0 < q) (hx : x < 2 * q) : (if x ≥ q then x - q else x) = x % q := HC.reduce2 hq hx
+
+theorem isPrimitiveRoot_spec (h : m.WF) {n g : Nat} (hg : g < m.value) (hn0 : 0 < n) (hn : 2 * n < 2^64) :
+    ∃ b, isPrimitiveRoot g (2*n) m = .ok b ∧ (b = true ↔ IsPrim n m.value g) := HC.isPrimitiveRoot_spec h hg hn0 hn
+
+/-- odd powers of a primitive root are primitive -/
+theorem isPrim_odd_pow {n q g : Nat} (hq : 2 < q) (hn : 0 < n) (hg : IsPrim n q g) (j : Nat) :
+    IsPrim n q (g^(2*j+1) % q) := HC.isPrim_odd_pow hq hn hg j
+
+/-- the value `minimalRootFrom` returns: the minimum of the N odd powers g^1, g^3, …, g^(2N-1) (mod q) -/
+theorem minimalRootFrom_spec (h : m.WF) {n g : Nat} (hn : 0 < n) (hg : g < m.value) :
+    ∃ r, minimalRootFrom (2*n) m g = .ok r ∧
+      (∃ j, j < n ∧ r = g^(2*j+1) % m.value) ∧ (∀ j, j < n → r ≤ g^(2*j+1) % m.value) := HC.minimalRootFrom_spec h hn hg
+
+/-- the determinism genuinely needs primality: for q = 85 = 5·17, N = 2, both 13 and 38 are primitive and minimal
+    for their own orbit of odd powers (this is the defect repaired in NTTTables::new) -/
+theorem composite_counterexample :
+    IsPrim 2 85 13 ∧ IsPrim 2 85 38 ∧
+    (∀ j, j < 2 → 13 ≤ 13^(2*j+1) % 85) ∧ (∀ j, j < 2 → 38 ≤ 38^(2*j+1) % 85) := HC.composite_counterexample 
+
+/-! ### root determinism (the degree N is a power of two, as everywhere in the library).
+    The statements for ARBITRARY n > 0 are false (q = 7, n = 3: 6 and 3 both satisfy x^3 = -1 but 3 is not an odd power of 6);
+    they are kept as `…Statement` definitions in Proofs/C09F.lean together with their machine-checked refutations. -/
+
+theorem prim_is_odd_power_pow2 {n q g g' : Nat} (hp : Nat.Prime q) (hn2 : ∃ k, n = 2^k)
+    (hg : IsPrim n q g) (hg' : IsPrim n q g') : ∃ j, j < n ∧ g' = g^(2*j+1) % q :=
+  HC.prim_is_odd_power_pow2 hp hn2 hg hg'
+
+/-- ROOT DETERMINISM: for prime q the minimal root does not depend on which primitive root the random search found -/
+theorem root_deterministic_pow2 (h : m.WF) (hp : Nat.Prime m.value) {n g g' : Nat} (hn2 : ∃ k, n = 2^k)
+    (hg : IsPrim n m.value g) (hg' : IsPrim n m.value g') :
+    minimalRootFrom (2*n) m g = minimalRootFrom (2*n) m g' := HC.root_deterministic_pow2 h hp hn2 hg hg'
+
+theorem minimalRoot_least_pow2 (h : m.WF) (hp : Nat.Prime m.value) {n g : Nat} (hn2 : ∃ k, n = 2^k)
+    (hg : IsPrim n m.value g) :
+    ∃ r, minimalRootFrom (2*n) m g = .ok r ∧ IsPrim n m.value r ∧ ∀ x, IsPrim n m.value x → r ≤ x :=
+  HC.minimalRoot_least_pow2 h hp hn2 hg
+
+theorem root_deterministic_general_false : ¬ HC.root_deterministicStatement := HC.root_deterministicStatement_false
+
+/-- non-vacuity: q = 17, N = 4 (2N = 8 divides 16): 2 is a primitive 8th root (2^4 = 16 = -1) -/
+example : IsPrim 4 17 2 := by unfold IsPrim; decide
+
 end HC.C09
